@@ -19,9 +19,9 @@ def main(tier, seed, prop="C02", torn=False, only_kinds=None, corpus=None, nrand
     try:
         hs = [("corpus", h) for h in (corpus or CORPUS)]
         if nrand is None:
-            nrand = 25 if tier == "quick" else 400
+            nrand = 16 if tier == "quick" else 400
         ex = exhaustive_histories(3)
-        hs += [("exhaustive", h) for h in (r.sample(ex, 40) if tier == "quick" else ex)]
+        hs += [("exhaustive", h) for h in (r.sample(ex, 10 if torn else 30) if tier == "quick" else ex)]
         for _ in range(nrand):
             h = random_history(r, r.choice([4, 6, 9, 14]), reopen_p=0.15, clear_p=0.2)
             if prop == "C12" or r.random() < 0.2:
